@@ -167,18 +167,15 @@ func (f *File) syncWithoutLocking() error {
 				uid := current.Uid
 				modTime := current.ModTime
 
-				f.info = NewFileInfo(
-					f.info.Name(),
-					size,
-					current.FileInfo().Mode(),
-					modTime,
-					current.AccessTime,
-					current.ChangeTime,
-					gid,
-					uid,
-					f.info.IsDir(),
-					f.log,
-				)
+				// Update the attributes in place; methods check `f.info.IsDir()` before they take the lock, so
+				// `f.info` itself must not be replaced while the file is open
+				f.info.size = size
+				f.info.mode = current.FileInfo().Mode()
+				f.info.modTime = modTime
+				f.info.accessTime = current.AccessTime
+				f.info.changeTime = current.ChangeTime
+				f.info.gid = gid
+				f.info.uid = uid
 
 				// Describe the file through a tar header so that its owner is archived
 				// too; `tar.FileInfoHeader` can't read it from our own `Stat` type and
@@ -505,15 +502,13 @@ func (f *File) Stat() (os.FileInfo, error) {
 		f.info.size = size
 	}
 
+	// Return a copy; the file's own attributes change with later calls
+	info := *f.info
 	if f.link != "" {
-		info := f.info
-
 		info.name = path.Base(f.link)
-
-		return info, nil
 	}
 
-	return f.info, nil
+	return &info, nil
 }
 
 func (f *File) Readdir(count int) ([]os.FileInfo, error) {
